@@ -625,7 +625,7 @@ func checkC16(e *core.Env) {
 				cancel()
 			}
 			got := log.take()
-			want, _, winner := expect(full, true, o.ClientStreams, o.ServerStreams)
+			want, handlerRuns, winner := expect(full, true, o.ClientStreams, o.ServerStreams)
 			e.Count("rpcs", 1)
 			if strings.Join(got, "\n") != strings.Join(want, "\n") {
 				viol("trace/stream", fmt.Sprintf("%s: observed trace %q, expected %q", full, got, want), got)
@@ -634,6 +634,23 @@ func checkC16(e *core.Env) {
 			for _, ob := range seen {
 				if ob.server != nil && ob.server != interface{}(svc) {
 					viol("info-server", full+": stream interceptor got a different srv", got)
+				}
+			}
+			// what each layer gets back from onward is the handler's own result (the very error value),
+			// unless a layer further in replaced it
+			for _, ob := range seen {
+				if !strings.HasSuffix(ob.layer, "<") {
+					continue
+				}
+				innerRewrites := false
+				for _, l := range all {
+					if l.beh == bRewrite && l.name != strings.TrimSuffix(ob.layer, "<") {
+						innerRewrites = true
+					}
+				}
+				if handlerRuns && !innerRewrites && ob.err != svc.retErr {
+					viol("result-identity/stream", fmt.Sprintf("%s: layer %s got %v back from onward, the handler returned %v", full, ob.layer, ob.err, svc.retErr), got)
+					break
 				}
 			}
 			{
